@@ -113,4 +113,29 @@ def featuresMask (C : Nat) (α : Nat → Rat) : List Bool := (List.range C).map 
 
 def ofList (l : List Rat) : Nat → Rat := fun i => l.getD i 0
 
+/-! ### the two convolutions, executable (integer samples) -/
+
+/-- a finite sequence as a causally padded signal: zero before its first sample (and after its last) -/
+def signal (xs : List Int) : Int → Int := fun τ => if τ < 0 then 0 else xs.getD τ.toNat 0
+
+/-- output sample `τ` of one (input channel, output channel) pair of the *masked* Conv1d of the PIT layer:
+kernel `w` (size `K`, dilation `d0`) multiplied by the time mask, input causally padded -/
+def maskedConvAt (K d0 : Nat) (β γ : Nat → Rat) (w : Nat → Int) (x : Int → Int) (τ : Int) : Int :=
+  ((List.range K).map fun j =>
+    (if (timeMask K β γ).getD j false then w j else 0) * x (τ - (((K - 1 - j) * d0 : Nat) : Int))).sum
+
+/-- the same output sample of the *exported* Conv1d: the surviving taps only, kernel size
+`kernel_size_opt`, dilation `dilation_opt`, left padding `(kernel_size_opt - 1)·dilation_opt` -/
+def exportedConvAt (K d0 : Nat) (β γ : Nat → Rat) (w : Nat → Int) (x : Int → Int) (τ : Int) : Int :=
+  ((List.range (kernelSizeOpt K β γ)).map fun i =>
+    w ((keptTaps (timeMask K β γ)).getD i 0) *
+      x (τ - (((kernelSizeOpt K β γ - 1 - i) * dilationOpt K d0 γ : Nat) : Int))).sum
+
+/-- a whole layer on a multi-channel integer signal: `w co ci j`, bias `b co`, stride `s`,
+`T` output samples; `conv` is one of the two functions above -/
+def convLayer (conv : (Nat → Int) → (Int → Int) → Int → Int) (cout : Nat) (w : Nat → Nat → Nat → Int)
+    (b : Nat → Int) (xs : List (List Int)) (s T : Nat) : List (List Int) :=
+  (List.range cout).map fun co => (List.range T).map fun t =>
+    b co + ((List.range xs.length).map fun ci => conv (w co ci) (signal (xs.getD ci [])) ((t * s : Nat) : Int)).sum
+
 end PlinioVerif.PIT
